@@ -230,8 +230,14 @@ static bool ht_same(const struct hash_table_state *s, size_t ns, const struct ht
 }
 
 /* ------------------------------------------------------------------ an arbitrary table that satisfies ht_inv */
+/* storage with the layout of `struct hash_table_state` followed by HT_NS slots; allocated as ONE typed heap object
+ * (a byte-array object of the same size makes every slot access a byte_extract and triples the formula) */
+struct ht_store {
+    struct hash_table_state st;
+    struct hash_table_entry sl[HT_NS];
+};
 static struct hash_table_state *ht_any_state(size_t ns) {
-    struct hash_table_state *s = malloc(sizeof(*s) + ns * sizeof(struct hash_table_entry));
+    struct hash_table_state *s = (struct hash_table_state *)malloc(sizeof(struct ht_store));
     __CPROVER_assume(s != NULL);
     s->hash_fn = vk_hash;
     s->equals_fn = vk_eq;
@@ -244,9 +250,11 @@ static struct hash_table_state *ht_any_state(size_t ns) {
     s->entry_count = nondet_size_t();
     s->max_load_factor = 0.95;
     for (size_t i = 0; i < ns; i++) {
-        s->slots[i].hash_code = nondet_u64();
+        /* an occupied slot stores the code of its key (clause of ht_inv, established by construction: cheaper for
+         * the solver than an arbitrary 64-bit code constrained afterwards; same set of states) */
         s->slots[i].element.key = ht_any_key();
         s->slots[i].element.value = ht_any_value();
+        s->slots[i].hash_code = nondet_bool() ? sp_hash(s->slots[i].element.key) : 0;
     }
     __CPROVER_assume(ht_inv(s, ns));
     return s;
